@@ -429,6 +429,10 @@ class Engine:
         self.cur_cls_stack = []
         self.probing = 0
         self.reached = set()
+        self.axiom_instances = []   # instances of universally valid library axioms (added to every obligation)
+
+    def axiom(self, f):
+        self.axiom_instances.append(f)
 
     # ------------------------------------------------------------------ obligations
     def oblige(self, name, st_or_pc, goal, **meta):
@@ -437,12 +441,13 @@ class Engine:
         pc = st_or_pc.pc if isinstance(st_or_pc, State) else st_or_pc
         if isinstance(goal, bool):
             goal = z3.BoolVal(goal)
-        self.obligations.append({"name": name, "pc": list(pc), "goal": goal, "meta": meta})
+        self.obligations.append({"name": name, "pc": list(pc) + list(self.axiom_instances), "goal": goal, "meta": meta})
 
     def feasible(self, st, extra=None):
         s = z3.Solver()
         s.set("timeout", self.feas_timeout_ms)
         s.add(*st.pc)
+        s.add(*self.axiom_instances)
         if extra is not None:
             s.add(extra)
         return s.check() != z3.unsat
@@ -487,12 +492,15 @@ class Engine:
         saved_env = st.env
         st.env = env
         self.cur_cls_stack.append(cls)
-        saved_lc = self.loop_counter
+        saved_lc, saved_prefix = self.loop_counter, getattr(self, "loop_prefix", "")
+        if len(self.cur_cls_stack) > 1:
+            self.loop_counter = itertools.count(0)
+            self.loop_prefix = f"{cls}.{fn.name}." if cls else f"{fn.name}."
         try:
             outs = self.exec_block(fn.body, st)
         finally:
             self.cur_cls_stack.pop()
-            self.loop_counter = saved_lc
+            self.loop_counter, self.loop_prefix = saved_lc, saved_prefix
         res = []
         for o in outs:
             if o.kind == "normal":
@@ -506,6 +514,7 @@ class Engine:
     def verify(self, fn, st, args, kwargs=None, cls=None):
         """top-level entry: loops of *this* function are numbered loop0, loop1, ..."""
         self.loop_counter = itertools.count(0)
+        self.loop_prefix = ""
         self.top_fn = fn
         return self.run_function(fn, st, args, kwargs, cls=cls)
 
@@ -714,9 +723,9 @@ class Engine:
         return self.cut_loop(label, s, st, it, spec)
 
     def next_loop_label(self):
-        if self.loop_counter is None or len(self.cur_cls_stack) > 1:
-            return None     # loops of inlined callees are not addressable by contracts
-        return f"loop{next(self.loop_counter)}"
+        if self.loop_counter is None:
+            return None
+        return f"{getattr(self, 'loop_prefix', '')}loop{next(self.loop_counter)}"
 
     def assigned_names(self, body):
         names, mutated = set(), set()
